@@ -27,9 +27,9 @@ type Ob struct {
 	Why       string `json:"why"`
 	// Trivial obligations are discharged without looking at control or data
 	// flow (e.g. a constructor literal); they do not count as nontrivial.
-	Trivial bool   `json:"trivial,omitempty"`
-	Config  string `json:"config,omitempty"`
-	Status  string `json:"status,omitempty"` // "", "known", "VIOLATION"
+	Trivial bool     `json:"trivial,omitempty"`
+	Config  string   `json:"config,omitempty"`
+	Status  string   `json:"status,omitempty"` // "", "known", "VIOLATION"
 	Path    []string `json:"path,omitempty"`
 }
 
